@@ -656,18 +656,26 @@ func runScenario(sc *scenario, tr *hx.Trace) (units int) {
 		return false
 	}
 	deadline := time.Now().Add(40 * time.Second)
+	runaway := false
 	for time.Now().Before(deadline) && !ended() {
 		if links[0].started && links[1].started && toolBiz(0) >= want[0] && toolBiz(1) >= want[1] {
 			break
 		}
 		time.Sleep(300 * time.Microsecond)
 	}
+	// an exchange that feeds itself (a write sent back and forth) does not go quiet: it is cut off once the tool has
+	// applied several times what the clients wrote, and recorded as not quiet
+	over := func() bool { return toolBiz(0) > 4*want[0]+200 || toolBiz(1) > 4*want[1]+200 }
 	// settle: nothing moves for 300 ms (the coordinator's flush timer is 100 ms)
 	quiet := false
 	settleDeadline := time.Now().Add(20 * time.Second)
 	last := [4]int{-1, -1, -1, -1}
 	lastChange := time.Now()
 	for time.Now().Before(settleDeadline) && !ended() {
+		if over() {
+			runaway = true
+			break
+		}
 		cur := [4]int{sites[0].ReplLen(), sites[1].ReplLen(), len(sites[0].LogCopy()), len(sites[1].LogCopy())}
 		drained := func(k int) bool {
 			links[k].mu.Lock()
@@ -844,6 +852,7 @@ func runScenario(sc *scenario, tr *hx.Trace) (units int) {
 		sites[i].Unlock()
 		sort.Strings(nsAt[i])
 	}
+	_ = runaway
 	tr.Emit(map[string]interface{}{"ev": "End", "quiet": quiet, "diff": append([]string{}, diff...), "foreignBookkeeping": [][]string{nsAt[0], nsAt[1]},
 		"linkErr": []string{linkErr[0], linkErr[1]}, "startErr": []string{startErr[0], startErr[1]},
 		"rdbErr": []string{fmt.Sprint(links[0].rdbErr), fmt.Sprint(links[1].rdbErr)}})
